@@ -5,6 +5,7 @@ import (
 	"go/ast"
 	"go/token"
 	"go/types"
+	"golang.org/x/tools/go/cfg"
 	"strings"
 )
 
@@ -36,6 +37,7 @@ func checkC01(p *Prog, r *Report) {
 	r.rule("C01.S8", "Recv copies a segment's data into the caller's buffer and advances by its length before recycling it", 1)
 	r.rule("C01.S9", "WriteBuffers hands kcp.Send pieces of at most mss bytes and continues exactly where the piece ended; n counts each input slice once", 2)
 	r.rule("C01.S10", "bufptr is assigned only recvbuf[n:] / bufptr[n:] with n the result of the copy just made; a Read takes at most one message from the core", 3)
+	r.rule("C01.S13", "recovered packets carry no checksum of their own, so the stream inherits the FEC framing discipline: emission of absent data slots only, cache wipe/flag pairing, padding before Encode/ReconstructData, size prefix written and validated (= C07.F1, F1b, F2, F3, F6)", 10)
 	r.rule("C01.S11", "the packets returned by fecDecoder.decode are consumed only by KCP.Input (same admission as wire data) and by the pool", 1)
 
 	push := p.Method("RingBuffer", "Push")
@@ -101,10 +103,10 @@ func checkC01(p *Prog, r *Report) {
 		pt, _ := c.PointOf(s.Call)
 		incs := 0
 		for i := pt.I + 1; i < len(pt.B.Nodes); i++ {
-			if ids, ok := pt.B.Nodes[i].(*ast.IncDecStmt); ok && ids.Tok == token.INC {
-				if t := p.Term(ids.X); t.Key() == tFld(base, fRcvNxt).Key() {
+			if lhsE, ok := p.incBy1(pt.B.Nodes[i]); ok {
+				if t := p.Term(lhsE); t.Key() == tFld(base, fRcvNxt).Key() {
 					incs++
-					allowedNxt[ids] = true
+					allowedNxt[pt.B.Nodes[i]] = true
 				}
 			}
 		}
@@ -188,78 +190,86 @@ func checkC01(p *Prog, r *Report) {
 	// ---- S5
 	{
 		fi := p.FuncOf(p.Method("KCP", "parse_una"))
+		c := p.CFG(fi)
+		fa := p.FactsOf(fi)
 		recycle := p.Method("KCP", "recycleSegment")
-		var una *types.Var
-		for _, fl := range fi.Decl.Type.Params.List {
-			for _, nm := range fl.Names {
-				una, _ = p.Info.Defs[nm].(*types.Var)
-			}
-		}
+		una := tVar(fi.paramObj(p, 0))
 		ok := false
-		why := "no loop over snd_buf found"
-		ast.Inspect(fi.Body, func(n ast.Node) bool {
-			rs, isR := n.(*ast.RangeStmt)
-			if !isR {
-				return true
+		why := "parse_una never recycles a segment"
+		for _, s := range p.CallsTo(recycle) {
+			if rootFuncInfo(s.Fn) != fi {
+				continue
+			}
+			rs := enclosingRange(p, s.Call)
+			if rs == nil {
+				why = "segments are recycled outside a loop over snd_buf"
+				continue
 			}
 			id, _ := rs.Key.(*ast.Ident)
 			if id == nil {
-				return true
+				continue
 			}
 			seg := tVar(p.Info.Defs[id])
-			want := lt(tConst(0), p.Diff(tVar(una), p.F(seg, "segment", "sn")))
-			// body: if want { recycle; count++ } else { break }
-			if len(rs.Body.List) != 1 {
-				why = "the loop body is not a single acknowledged/not-acknowledged decision"
-				return true
-			}
-			is, isIf := rs.Body.List[0].(*ast.IfStmt)
-			if !isIf || is.Else == nil {
-				why = "the loop does not stop at the first segment that is not acknowledged"
-				return true
-			}
-			if p.ExpandHelpers(p.Term(is.Cond)).Key() != want.Key() {
-				why = "segments are freed under " + pretty(p.Term(is.Cond).Key()) + ", not under _itimediff(una, seg.sn) > 0"
-				return true
-			}
-			rec, cnt := false, false
-			var cntVar *types.Var
-			for _, st := range is.Body.List {
-				ast.Inspect(st, func(x ast.Node) bool {
-					if call, isC := x.(*ast.CallExpr); isC && p.Callee(call) == recycle {
-						rec = true
-					}
-					if ids, isI := x.(*ast.IncDecStmt); isI && ids.Tok == token.INC {
-						if cid, isId := ids.X.(*ast.Ident); isId {
-							cntVar, _ = p.Info.Uses[cid].(*types.Var)
-							cnt = true
+			acked := lt(tConst(0), p.Diff(una, p.F(seg, "segment", "sn")))
+			pt, _ := c.PointOf(s.Call)
+			// (a) only acknowledged segments are freed
+			okAck := fa.AtNode(s.Call).Holds(acked) || fa.AtNode(s.Call).Holds(p.ExpandHelpers(acked))
+			if !okAck {
+				for _, ct := range c.DominatingConds(pt) {
+					for _, a := range Conjuncts(p.ExpandHelpers(ct)) {
+						if a.Key() == p.ExpandHelpers(acked).Key() {
+							okAck = true
 						}
 					}
-					return true
-				})
+				}
 			}
-			brk := false
-			if eb, isB := is.Else.(*ast.BlockStmt); isB {
-				for _, st := range eb.List {
-					if bs, isBr := st.(*ast.BranchStmt); isBr && bs.Tok == token.BREAK {
-						brk = true
+			// (b) counted once, in the same block
+			var cntVar *types.Var
+			cnt := 0
+			for _, nd := range pt.B.Nodes {
+				if lhsE, isI := p.incBy1(nd); isI {
+					if cid, isId := lhsE.(*ast.Ident); isId {
+						cntVar, _ = p.Info.Uses[cid].(*types.Var)
+						cnt++
 					}
 				}
 			}
-			// Discard(count)
+			// (c) the first segment that is not acknowledged ends the scan
+			stops := false
+			for _, b := range c.live {
+				ct := c.CondTerm(b)
+				if ct == nil || len(b.Succs) != 2 {
+					continue
+				}
+				e := p.ExpandHelpers(ct)
+				var notAck *cfg.Block
+				switch {
+				case e.Key() == p.ExpandHelpers(acked).Key():
+					notAck = b.Succs[1]
+				case e.Key() == Negate(p.ExpandHelpers(acked)).Key():
+					notAck = b.Succs[0]
+				default:
+					continue
+				}
+				res := c.FindPath(PathQuery{From: Point{notAck, 0}, IsTarget: func(_ ast.Node, q Point) bool { return q == pt }})
+				stops = !res.Found
+			}
+			// (d) exactly that many are discarded
 			disc := false
-			for _, s := range p.CallsTo(p.Method("RingBuffer", "Discard")) {
-				if s.Fn == fi && cntVar != nil && s.Args[0].Op == "var" && s.Args[0].Obj == cntVar {
-					disc = true
+			for _, d := range p.CallsTo(p.Method("RingBuffer", "Discard")) {
+				if d.Fn == fi && cntVar != nil && d.Args[0].Op == "var" && d.Args[0].Obj == cntVar {
+					if dp, okd := c.PointOf(d.Call); okd && !nodeWithin(p, d.Call, rs) {
+						_ = dp
+						disc = true
+					}
 				}
 			}
-			if rec && cnt && brk && disc {
+			if okAck && cnt == 1 && stops && disc {
 				ok = true
 			} else {
-				why = fmt.Sprintf("recycle: %v, counted: %v, stops at the first unacknowledged: %v, Discard(count): %v", rec, cnt, brk, disc)
+				why = fmt.Sprintf("freed only under _itimediff(una, seg.sn) > 0: %v; counted exactly once with the recycle: %v; the scan stops at the first segment that is not acknowledged: %v; Discard(count) after the loop: %v", okAck, cnt == 1, stops, disc)
 			}
-			return true
-		})
+		}
 		r.check(ok, "C01.S5", fi.Name, p.Pos(fi.Node), "cumulative acknowledgement", "frees exactly the prefix with _itimediff(una, sn) > 0", why)
 	}
 
@@ -418,6 +428,9 @@ func checkC01(p *Prog, r *Report) {
 		r.check(ok, "C01.S8", fi.Name, p.Pos(fi.Node), "copy before recycle", "copy(buffer, seg.data); buffer = buffer[len(seg.data):]; then recycle", "Recv recycles a segment before (or without) copying its data and advancing by its length: the reader receives another packet's bytes or a gap")
 	}
 
+	for _, fr := range []string{"C07.F1", "C07.F1b", "C07.F2", "C07.F3", "C07.F6"} {
+		delegate(p, r, "C07", checkC07, fr, "C01.S13")
+	}
 	checkCoreCutting(p, r)
 	checkSessionChunking(p, r)
 	checkReadCarryOver(p, r)
